@@ -1181,7 +1181,24 @@ def with_reenable(gen):
         return cases
     return g
 
+def with_ctor_hints(gen):
+    """bit structures built from an iterator that reports another legal size hint (an upper bound above the count, none at all)"""
+    def g(rng, tier, *a):
+        cases = gen(rng, tier, *a)
+        r2 = random.Random(rng.random())
+        for c in cases:
+            for i, l in enumerate(c):
+                t = l.split(' ')
+                if t[0] == 'new' and len(t) >= 5 and t[2] in ('r9', 'da', 'sa') and t[3] in ('new', 'build') and ':' in t[4] and r2.random() < 0.3:
+                    want = {('r9', 'new'): 7, ('da', 'new'): 7, ('sa', 'new'): 6}.get((t[2], t[3]), 8)
+                    if len(t) != want: continue
+                    n = int(t[4].split(':')[0])
+                    c[i] = l + ' ' + r2.choice(['h0:none', 'h0:%d' % (n + 1), 'h0:%d' % (n + 600), 'h%d:%d' % (n, 2 * n + 64), 'h%d:%d' % (n, n)])
+        return cases
+    return g
+
 GENERATORS = dict((k_, with_hops(v_)) for k_, v_ in GENERATORS.items())
+for k_ in ('C01', 'C02', 'C03', 'C15', 'C19'): GENERATORS[k_] = with_ctor_hints(GENERATORS[k_])
 for k_ in ('C01', 'C02', 'C03', 'C04', 'C12', 'C15'): GENERATORS[k_] = with_reenable(GENERATORS[k_])
 
 
